@@ -229,6 +229,14 @@ ValsOf(lay, T, g) ==
 -----------------------------------------------------------------------------
 (* part 3: the pipeline of the code over abstract lines                    *)
 
+\* The model follows the code AS IT IS, known findings included.  When one of them is
+\* repaired in modelx, name it here and the algorithm layer follows the repaired behaviour
+\* (otherwise the traces only show DRIFT -- never a violation):
+\*   "KF1"  a lambda whose line break needs the enclosing brackets is kept in parentheses
+\*   "KF4"  set_doc on a one-line body without docstring puts `"""doc"""; ` in front of it
+\*   "KF5"  set_doc escapes what cannot stand between triple quotes
+Fixed == {}
+
 IsBlank(l)   == l.k = "blank"
 IsComment(l) == l.k \in CommentKinds
 IsCode(l)    == ~IsBlank(l) /\ ~IsComment(l)
@@ -289,7 +297,8 @@ ExtractLambda(T) ==
     IN [i \in DOMAIN S |-> IF S[i].k = "lamA" THEN [S[i] EXCEPT !.col = 0] ELSE S[i]]
 \* _init_from_lambda (formula.py:355-370): exec("_lambdafunc = " + src) needs every line
 \* break inside src to be protected by src itself
-LamExecErr(T) == IF \E i \in DOMAIN T : T[i].k = "lamB" /\ T[i].d = 0 THEN "SyntaxError" ELSE ""
+LamExecErr(T) ==
+    IF "KF1" \notin Fixed /\ \E i \in DOMAIN T : T[i].k = "lamB" /\ T[i].d = 0 THEN "SyntaxError" ELSE ""
 PipelineLam(lay, T) ==
     LET X == ExtractLambda(IF lay.form = "lamobj" THEN T ELSE Dedent(T))
     IN IF LamExecErr(X) # "" THEN [err |-> LamExecErr(X), lines |-> <<>>]
@@ -340,7 +349,7 @@ ReplaceDocstring(T, k, ii) ==
     IF IsOne(T)
     THEN \* :219-231 "single line": the docstring token is replaced in place, or the new one
          \* is put directly in front of the first statement
-         [T EXCEPT ![HdrIdx(T)].d = IF T[HdrIdx(T)].d = 0 THEN -1 ELSE k]
+         [T EXCEPT ![HdrIdx(T)].d = IF T[HdrIdx(T)].d = 0 /\ "KF4" \notin Fixed THEN -1 ELSE k]
     ELSE \* :197-217: the text from the start of the first statement's line to the end of the
          \* docstring token is replaced, or the new lines are put in front of that line
          LET s == FirstStmt(T)
@@ -348,8 +357,8 @@ ReplaceDocstring(T, k, ii) ==
          IN IF T[s].k = "doc" THEN SubSeq(T, 1, s - 1) \o new \o SubSeq(T, DocRun(T, s) + 1, Len(T))
             ELSE SubSeq(T, 1, s - 1) \o new \o SubSeq(T, s, Len(T))
 \* '"""' + docstr + '"""' (formula.py:194): nothing is escaped
-QuoteErr(k) == IF k \in {14, 16} THEN "SyntaxError" ELSE ""
-ReadBack(k) == IF k = 15 THEN EscDoc ELSE k
+QuoteErr(k) == IF "KF5" \notin Fixed /\ k \in {14, 16} THEN "SyntaxError" ELSE ""
+ReadBack(k) == IF "KF5" \notin Fixed /\ k = 15 THEN EscDoc ELSE k
 \* set_doc (cells.py:895-912)
 SetDocFn(cur, k, ii) ==
     IF cur.islam THEN [cur EXCEPT !.doc = [code |-> k, exact |-> TRUE, cont |-> 0]]
